@@ -715,3 +715,68 @@ def c19(ctx):
     ctx.exhaustive = False
     ctx.assumptions += ["ThreadSanitizer only sees interleavings that happened; the snapshot, census and heap monitors do not depend on scheduling",
                         "concurrent use of the same object is outside the property"]
+
+
+# ---------------------------------------------------------------------------------- C06
+
+def memcheck_report(err):
+    """(key, excerpt) for the first memcheck error in valgrind's stderr, or None."""
+    import re
+    m = re.search(r"==\d+== (Conditional jump or move depends on uninitialised value|Use of uninitialised value[^\n]*|Invalid (?:read|write) of size \d+|"
+                  r"Syscall param [^\n]*|Source and destination overlap[^\n]*|Uninitialised byte\(s\) found during client check request)", err)
+    if not m:
+        return None
+    tail = err[m.start():m.start() + 2500]
+    fn = re.search(r"(?:at|by) 0x[0-9A-F]+: (tinyjambu_\w+)", tail)
+    kind = re.sub(r"\d+", "N", m.group(1)).split(" depends")[0].replace(" ", "-")[:48]
+    return "memcheck:%s:%s" % (kind, fn.group(1) if fn else "?"), tail
+
+
+def valgrind_jobs(ctx, exe, tag, args, nb, extra_vg=()):
+    jobs = batch_jobs(ctx, exe, tag, args, nb)
+    for j in jobs:
+        j["cmd"] = ["valgrind", "-q", "--error-exitcode=9", "--track-origins=yes", "--expensive-definedness-checks=yes", "--error-limit=no"] + list(extra_vg) + j["cmd"]
+    return jobs
+
+
+def run_valgrind(ctx, jobs, timeout=3000):
+    res = ctx.run_jobs(jobs, timeout=timeout)
+    for job, rc, out, err, dt in res:
+        if rc is None:
+            continue
+        rep = memcheck_report(err)
+        if rep:
+            ctx.violation(rep[0], {"build": job["tag"], "cmd": job["cmd"], "report": rep[1]})
+        elif rc == 9:
+            ctx.violation("memcheck:unclassified", {"build": job["tag"], "cmd": job["cmd"], "report": err[-3000:]})
+        ctx.count("valgrind_processes", 1)
+    return res
+
+
+@check("C06", "exploration", floor=2000)
+def c06(ctx):
+    load_replay(ctx)
+    W, NL = ctx.q((12, 7), (34, 28))
+    names = ctx.q(["prod", "gcc-O2", "asan-gcc", "asan-clang", "msan"], ["prod", "gcc-O0", "gcc-O2", "gcc-O3", "clang-O2", "clang-O3", "asan-gcc", "asan-clang", "asan-gcc-O3", "msan"])
+    builds = build_set(ctx, names)
+    jobs = []
+    for b in builds:
+        exe = ctx.harness("h_mem-" + b["tag"], "h_mem.c", b["lib"], cc=b["cc"], flags=b["hflags"], with_model=False)
+        jobs += batch_jobs(ctx, exe, b["tag"], ["--mode", "all", "--p1", W, "--p3", NL], ctx.q(4, 8))
+    ctx.run_jobs(jobs, timeout=3000)
+    # valgrind memcheck on the production objects: outputs/states/dead stack marked undefined before each call
+    p = ctx.prod()
+    exe = ctx.harness("h_mem-prod-vg", "h_mem.c", {"static": p["static"]}, cc="gcc", with_model=False, defs=["VERIF_VALGRIND"])
+    run_valgrind(ctx, valgrind_jobs(ctx, exe, "prod-cmake-Release+memcheck", ["--mode", "all", "--p1", ctx.q(5, 16), "--p3", ctx.q(0, 7)], 16))
+    ctx.rule = ("contract workload over the whole public API: 6 AEAD/SIV variants x (adlen, mlen) in [0..W]^2 (separate / encrypt-in-place / decrypt-in-place, "
+                "accepted and rejected packets), tinyjambu_hash 0..300 (quick 120), incremental hash with chunk schedules, HMAC key lengths 0..200 x 9 message "
+                "lengths one-shot and incremental (reinit), HKDF one-shot 0..200 + every 32k-1/32k/32k+1 up to 8160 + {8159,8160,8161,8192,65536,SIZE_MAX} and "
+                "incremental totals crossing 8160, PBKDF2 outlen 0..100 and 8190, PRNG (scripted callback with short deliveries) generate 0..100/1000/5000 + feed + "
+                "reseed + free, tinyjambu_clean 0..300, free functions on junk objects, large sizes 64 KiB+r and 1 MiB+r. Every buffer is exactly sized and placed "
+                "end-guard / start-guard / mid+canary (offsets 0..7) rotating; inputs PROT_READ; NULL or guard-page pointer for zero lengths; state objects end at a "
+                "guard page. Each case runs twice with different junk in outputs/states/dead stack (junk differential). Monitors: SIGSEGV classification on production "
+                "objects, ASan+UBSan (gcc, clang), MSan with definedness assertions on every output, memcheck on the production objects. "
+                "class = (api, length tuple, placement rotation).")
+    ctx.exhaustive = False
+    ctx.assumptions += ["UBSan nonnull-attribute (and clang pointer-overflow for NULL+0) are disabled: memcpy/explicit_bzero(NULL, .., 0) on permitted NULL/0 arguments touches no byte and is outside the property",
+                        "red-zone tools cannot see intra-object overflows inside the library's private structs", "lengths >= 2^32 are not run"]
